@@ -38,6 +38,21 @@ DOC_LIMITS = {k: [0.0, 1.0e6] for k in ("vi", "vo", "vd", "ii", "io", "pi", "po"
 DOC_LIMITS["tp"] = [-1.0e6, 1.0e6]
 
 
+_scr = {}
+
+
+def _scratch():
+    """One scratch directory per process (outside /repo and /verif), removed at exit."""
+    if "d" not in _scr:
+        import atexit
+        import shutil
+        import tempfile
+
+        _scr["d"] = tempfile.mkdtemp(prefix="slmon-c13-")
+        atexit.register(shutil.rmtree, _scr["d"], True)
+    return _scr["d"]
+
+
 def floatify(x):
     if isinstance(x, bool):
         return x
@@ -81,7 +96,7 @@ def gen(rng, i, tier):
         keys = rng.sample(c11_limit_keys(), rng.randint(1, 4))
         lim = {k: [float(G.sig(rng.uniform(0, 0.01))), float(G.sig(G.lu(rng, 0.1, 100.0)))] for k in keys}
     mode = c11.cyc("c13mode", ["equal", "equal", "equal", "missing", "wrong_type", "wrong_type"])
-    case = {"kind": kind, "args": a, "limits": lim, "mode": mode}
+    case = {"kind": kind, "args": a, "limits": lim, "mode": mode, "same_path": i % 3 != 0}
     if mode == "missing":
         opts = MANDATORY[kind] + ["<section>"]
         if kind == "Rectifier":
@@ -166,7 +181,8 @@ def run(ctx, case):
     if case["mode"] == "wrong_type":
         tdoc[SECTION[kind]][case["bad_key"]] = _detag(case["bad_value"])
     with H.tmpdir() as d:
-        fn = os.path.join(d, "c.toml")
+        # two cases in three rewrite ONE parameter file (edit-and-reload); the others use a path never seen before
+        fn = os.path.join(_scratch(), "component.toml") if case.get("same_path", True) else os.path.join(d, "c.toml")
         with open(fn, "w") as f:
             f.write(toml.dumps(tdoc))
         defaults_before = copy.deepcopy(ns.comps.LIMITS_DEFAULT)
